@@ -86,9 +86,15 @@ def _expected_for_name(name, fg, bg, sty):
     return None
 
 
+def _is_helper(v):
+    """A public callable defined in fmtfuncs: a functools.partial of fmtstr or a function written out."""
+    from ..consteval import FuncRef
+    return isinstance(v, Partial) or (isinstance(v, FuncRef) and v.mod == "fmtfuncs")
+
+
 def rule_t1(src, rep, it, fg, bg, sty, counts):
     env = it.folder.module("fmtfuncs")
-    names = [k for k, v in env.items() if isinstance(v, Partial) and not k.startswith("_")]
+    names = [k for k, v in env.items() if _is_helper(v) and not k.startswith("_")]
     counts["fmtfuncs"] = len(names)
     where = "curtsies/fmtfuncs.py"
     seen_attr = set()
@@ -315,6 +321,36 @@ def rule_t4(src, rep, it, fg, bg, sty, counts):
                "a mixed-case name must either raise ValueError or mean the same as its lower-case spelling; it %s"
                % ("raises %s" % r[1] if r[0] == "raise" else "gives %s" % runs_of(r[1])), witness={"args": a})
         rep.case(True)
+    # the colour helpers are spellings of fg= / bg=: naming the same attribute again, in any spelling, is a contradiction
+    env = it.folder.module("fmtfuncs")
+    n_h = 0
+    for name, p in sorted(env.items()):
+        if not _is_helper(p) or name.startswith("_"):
+            continue
+        if name in fg:
+            other = [c for c in sorted(fg) if c != name][0]
+            again = [((other,), {}), ((), {"fg": other}), ((), {"fg": fg[other]}), ((name,), {}), ((), {"fg": name})]
+        elif name.startswith("on_") and name[3:] in bg:
+            other = [c for c in sorted(bg) if c != name[3:]][0]
+            again = [(("on_" + other,), {}), ((), {"bg": other}), ((), {"bg": bg[other]}), ((), {"bg": name[3:]})]
+        else:
+            continue
+        for a, k in again:
+            try:
+                v = it.folder.v_call(p, [T] + list(a), dict(k), None, {})
+                r = ("ok", v)
+            except FoldedRaise as e:
+                r = ("raise", e.name)
+            except Unknown as e:
+                raise AnalysisError("fmtfuncs.%s outside the evaluated subset: %s" % (name, e))
+            n_h += 1
+            rep.ob("T4-helper-plus-same-attribute-raises-ValueError", "curtsies/fmtfuncs.py", "fmtfuncs:%s" % name,
+                   "%s(t, *%r, **%r)" % (name, a, k), r == ("raise", "ValueError"),
+                   "%s already names the %s colour: giving it again must raise ValueError (as fmtstr(t, %r, ...) does); it %s"
+                   % (name, "foreground" if name in fg else "background", name,
+                      "raises %s" % r[1] if r[0] == "raise" else "is accepted as %s" % runs_of(r[1])), witness={"helper": name, "args": a, "kwargs": k})
+            rep.case(True)
+    counts["helper_contradictions"] = n_h
     # bad first argument
     r = call_fmtstr(it, 42)
     rep.ob("T4-non-text-raises-ValueError", f.where(), "formatstring:fmtstr", "fmtstr(42)", r == ("raise", "ValueError"),
